@@ -583,7 +583,10 @@ class TreeGen(Gen):
                     stmts.append(self.aggregate(rng.choice(lists), own))
                 else:
                     pool = reach if (rng.random() < 0.6 and len(reach) > len(own)) else own
-                    stmts.append(self.stmt(pool, self.cfg["depth"]))
+                    if rng.random() < self.cfg.get("loose", 0.0):
+                        stmts.append(simple_stmt(rng, pool))
+                    else:
+                        stmts.append(self.stmt(pool, self.cfg["depth"]))
             cdef["blocks"].append({"n": "c%d" % b, "stmts": stmts})
         return cdef
 
